@@ -78,13 +78,17 @@ def sumExposed {V : Type} [Val V] (bounds : List V) : Bool :=
 
 /-! ### label values -/
 
-/-- a Python object passed as a label value; floats are passed as their `str()` text -/
+/-- a Python object passed as a label value; floats and sequences are passed as their `str()` text -/
 inductive PyVal
   | str (s : Str)
   | int (n : Int)
   | bool (b : Bool)
   | none
   | float (repr : Str)
+  /-- a tuple / a list passed as ONE label value, by its `str()` text ("('a',)", "['a', 'b']"): `labels()` and `remove()`
+  stringify it like any other object, they do not unpack it -/
+  | tuple (text : Str)
+  | list (text : Str)
 deriving Repr, DecidableEq
 
 def intStr (n : Int) : Str :=
@@ -98,6 +102,8 @@ def pyStr : PyVal → Str
   | .bool false => ['F', 'a', 'l', 's', 'e']
   | .none => ['N', 'o', 'n', 'e']
   | .float r => r
+  | .tuple t => t
+  | .list t => t
 
 /-- `a <= b` for str -/
 def strLe (a b : Str) : Bool := !strLt b a
